@@ -134,6 +134,20 @@ def make_points(case, terms, n=24):
                 p[term_str(a)] = poly.ev(c, p) - poly.ev(rest, p)
             except ZeroDivisionError:
                 okp = False
+        # conditions (= (- a rest) c) over a fluent not bound above are satisfied too (a := c + rest): the
+        # remaining conditions then decide the conjunction
+        bound = {term_str(eq[1][1]) for eq in eqs}
+        for c in case.get("conds") or []:
+            if c[0] == "=" and isinstance(c[1], list) and c[1][0] == "-" and isinstance(c[1][1], list) and \
+                    c[1][1][0] not in ("+", "-", "*", "/"):
+                a = term_str(c[1][1])
+                if a in bound or a in terms_in(c[1][2]) or a in terms_in(c[2]):
+                    continue
+                bound.add(a)
+                try:
+                    p[a] = poly.ev(c[2], p) + poly.ev(c[1][2], p)
+                except ZeroDivisionError:
+                    okp = False
         if okp:
             pts.append(p)
     return pts
@@ -510,10 +524,16 @@ def check_case(case):
             res.bad("C13/print/output-not-a-conjunction", {**info, "output": out})
             return res
         outs = ast[1:]
-        if ctx.active(F_K4) and any(isinstance(o, list) and o and o[0] in ("=", "<", "<=", ">", ">=") and (len(o) < 3 or isinstance(o[1], str)) for o in outs):
+        k4_form = lambda o: isinstance(o, list) and o and o[0] in ("=", "<", "<=", ">", ">=") and (len(o) < 3 or isinstance(o[1], str))
+        if ctx.active(F_K4) and any(k4_form(o) for o in outs):
+            # the finding concerns the form (a side without fluents, which the library's own reader rejects), not the
+            # meaning: a comparison that starts with a number is still judged for equivalence below
             res.known.append(F_K4)
-            return res
+            if any(len(o) != 3 or not pddl_number(o[1]) for o in outs if k4_form(o)):
+                return res
         for o in outs:
+            if ctx.active(F_K4) and k4_form(o):
+                continue
             probs = structure_problems(o, allowed, ("=", "<", "<=", ">", ">="))
             if probs:
                 res.bad("C13/print/output-not-binary-pddl", {**info, "output": out, "problems": probs[:3]})
@@ -540,7 +560,10 @@ def check_case(case):
                 continue
             # an output equality that is nearly (but maybe not exactly) satisfied cannot be judged
             # through rounded coefficients unless the input conjunction holds exactly
-            if not all(vin) and any(_is_eq(o) and abs(delta(o, p)) <= tol * 8 for o in outs):
+            # ... or the input's own equalities hold exactly at this point (the constructed points do): then a false
+            # input is false because of an inequality, by a clear margin, and the output must be false as well
+            eq_in_exact = all(delta(c, p) == 0 for c in eqs + conds if _is_eq(c))
+            if not all(vin) and not eq_in_exact and any(_is_eq(o) and abs(delta(o, p)) <= tol * 8 for o in outs):
                 continue
             a, b = all(vin), all(vout)
             both.add(a)
@@ -566,6 +589,10 @@ def _lower(x):
 
 def _is_eq(c):
     return c[0] == "="
+
+
+def pddl_number(x):
+    return isinstance(x, str) and poly.is_number(x)
 
 
 def _truth(c, p, tol):
@@ -666,6 +693,23 @@ def gen(ch, tier):
             rest = gen_poly(ch, others, 1, "dec" if cls in ("near", "tiny", "long") else cls, ch.int(1, 2))
             eqs.append(["=", ["+", list(a), rest], ch.choice(["0", "0", gen_coef(ch, "int")])])
         case["equalities"] = eqs
+        if eqs and ch.flag(0.3):
+            # an inequality whose left side cancels completely under the first equality: what remains, 0 <op> rhs,
+            # still restricts the fluents of the right side
+            rest_terms = [t for t in terms if term_str(t) != term_str(eqs[0][1][1])]
+            case["conds"] = [[op, ["-", copy.deepcopy(eqs[0][1]), eqs[0][2]],
+                              gen_poly(ch, rest_terms, 1, "int", 1) if rest_terms and ch.flag(0.7) else gen_coef(ch, "int")]]
+    if entry == "print" and len(terms) >= 2 and "equalities" not in case and ch.flag(0.35):
+        # an equality over a difference, (= (- a rest) c), next to an inequality over a: it is not of the shape the
+        # library eliminates with, so the inequality must come out as it went in
+        a, b = [list(tm) for tm in ch.sample(terms, 2)]
+        rest = b if ch.flag(0.8) else ["*", b, ch.choice(["2", "3", "0.5"])]
+        others = [list(tm) for tm in terms if list(tm) not in (a, b)]
+        lhs = ch.choice([["+", a, copy.deepcopy(rest)], ["+", copy.deepcopy(rest), a], ["+", a, copy.deepcopy(rest)],
+                         ["+", ["*", a, "2"], copy.deepcopy(rest)], gen_poly(ch, [a, b], 2, "int", 2)])
+        rhs2 = ch.choice(others) if others and ch.flag(0.5) else gen_coef(ch, "int")
+        case["conds"] = [["=", ["-", a, rest], gen_coef(ch, "int")], [ch.choice(["<", "<=", ">", ">="]), lhs, rhs2]]
+        return case
     if entry == "print" and len(terms) >= 2 and "equalities" not in case and ch.flag(0.25):
         # two conditions of one shape whose constants agree at the printed resolution and differ below it, scaled
         # back up by a common factor: (4x + y <= r) and (x + 4y <= r) written with 0.004 * 1000 at 2 decimals
